@@ -383,7 +383,10 @@ def render_bank(b):
     if b.get("unit", 8) != 8 or b.get("show_bits"):
         f.append("#bits %d" % b["unit"])
     f.append("#addr 0x%x" % b["addr"] if b["addr"] >= 0 else "#addr -0x%x" % -b["addr"])
-    if b.get("size") is not None:
+    if b.get("size") is not None and b.get("size_as_end"):
+        end = b["addr"] + b["size"]
+        f.append("#addr_end 0x%x" % end if end >= 0 else "#addr_end -0x%x" % -end)
+    elif b.get("size") is not None:
         f.append("#size 0x%x" % b["size"])
     if b.get("outp") is not None:
         f.append("#outp %d" % b["outp"])
